@@ -2,7 +2,7 @@
 from .. import scriptprop
 
 ID = "C16"
-GEN = ["QueueCalls.lean", "StackCalls.lean"]   # call shapes regenerated from the source on every run (tie 4B)
+GEN = ["QueueCalls.lean", "StackCalls.lean", "ListShapes.lean"]   # call shapes regenerated from the source on every run (tie 4B)
 RULE = ("interleavings of enq/deq/qpeek/qlen and push/pop/speek/slen from the zero value with drain-to-empty and refill phases; "
         "deep phases (65..1000 elements pushed, drained to empty with peeks, reused) for either structure; plus every interleaving of length <= 7 over {enq,deq,qpeek} and {push,pop,speek} (exhaustive); non-trivial = at least 3 insertions and 3 removals")
 ASSUMPTIONS = []
